@@ -2,6 +2,7 @@
 C11 — Positions are a normalised set: sorted, disjoint, exact union.
 -/
 import Sqroot.Proofs.Positions
+import Sqroot.Proofs.PosHeap
 import Sqroot.Gen.V1
 import Sqroot.Gen.V2
 import Sqroot.Gen.V3
@@ -60,6 +61,25 @@ theorem build_reset_as_modelled :
     Gen.V1.buildFullReset = true ∧ Gen.V2.buildFullReset = true ∧ Gen.V3.buildFullReset = true ∧
     Gen.V1.buildResultFresh = true ∧ Gen.V2.buildResultFresh = true ∧ Gen.V3.buildResultFresh = true :=
   ⟨rfl, rfl, rfl, rfl, rfl, rfl⟩
+
+/-- later use of the builder never changes a Positions value built earlier: on the slice/heap
+model (Go slice headers over backing arrays, in-place writes, append with spare capacity), for
+ANY script before the Build and ANY script after it on the same builder -/
+theorem built_positions_are_isolated (pre post : List HCall) :
+    let r1 := runHCalls pre ⟨[]⟩ {} []
+    let built := r1.2.1.build r1.1
+    let r2 := runHCalls post built.1 built.2.2 []
+    r2.1.read built.2.1 = built.1.read built.2.1 :=
+  build_isolated pre post
+
+/-- the slice/heap builder hands out exactly what the pure builder of `build_normal_exact_union`
+computes -/
+theorem heap_builder_refines_pure (cs : List BCall) (b : Builder) (hb : ({} : Builder).calls cs = .ok b) :
+    let hcs := cs.map (fun c => match c with | .add p => HCall.add p | .addRange s e => HCall.addRange s e)
+    let r := runHCalls hcs ⟨[]⟩ {} []
+    r.1.read r.2.1.ranges = b.ranges ∧ r.2.1.unsorted = b.unsorted ∧
+    (∀ res b', b.build = .ok (res, b') → (r.2.1.build r.1).1.read (r.2.1.build r.1).2.1 = res) :=
+  heap_build_refines cs b hb
 
 /-- non-vacuity: an out-of-order, overlapping, adjacent, negative and wrapping script -/
 example : (do let b ← ({} : Builder).calls [.addRange 5 9, .add 3, .addRange (-4) 2, .add 2, .add maxInt, .addRange 9 9, .addRange 8 12]; b.build).toOption
